@@ -3077,8 +3077,9 @@ HDset_special_info(int32 access_id, sp_info_block_t *info_block)
     if (access_rec == (accrec_t *)NULL || info_block == NULL)
         HGOTO_ERROR(DFE_ARGS, FAIL);
 
-    /* special elt, so call special function */
-    if (access_rec->special)
+    /* special elt, so call special function (only some kinds of special
+       element, e.g. external ones, provide one) */
+    if (access_rec->special && access_rec->special_func->reset != NULL)
         ret_value = (*access_rec->special_func->reset)(access_rec, info_block);
 
     /* else is not special so fail */
